@@ -939,10 +939,15 @@ func c18GenHammer(t *rapid.T) c18HammerCase {
 	}
 }
 
-func TestVerif_C18Race(t *testing.T) {
+// TestVerif_C18Hammer is its own (race) unit so that its case count can differ
+// from the concurrent sub-check's.
+func TestVerif_C18Hammer(t *testing.T) {
 	verifkit.Check(t, "C18", "concurrent-same-id",
 		"50..200 rounds per case: the current backend (play or config state) asks one keep-alive id once, then 2..8 goroutines released from one barrier all handle the client's reply with that id (play or config client handler); oracle: the backend receives the reply exactly once in every round; race detector on; every case is non-trivial",
 		c18GenHammer, c18RunHammer)
+}
+
+func TestVerif_C18Race(t *testing.T) {
 	verifkit.Check(t, "C18", "concurrent",
 		"sequential setup (current + optional in-flight backend in any state, 0..8 keep-alives), then 2..6 goroutines released from one barrier each handling 1..6 client replies / backend keep-alives biased to one hot id, then a drain of two replies per id; conservation bounds valid for every interleaving (writes(b,id) <= times asked, = 1 if asked once and no concurrent ask, total writes <= replies, only eligible role-holding backends); race detector on; non-trivial = >=2 goroutines reply concurrently to an id pending on a role-holding backend, or same id pending on both backends",
 		c18GenRace, c18RunRace)
